@@ -7,6 +7,7 @@ package main
 
 import (
 	"bytes"
+	"crypto/sha256"
 	"fmt"
 	"io/fs"
 	"math/rand"
@@ -234,9 +235,29 @@ type bundledEnv struct {
 	scan        *lib.Livesim
 	scanAs      []app.VerifC15Asset
 	urls        []string
-	scanRes     map[string]lib.Resp
+	scanRes     map[string]respSum // digests only: the bodies of ~10^4 responses are not kept in memory
 	n           int
 	nNontrivial int
+}
+
+// respSum is what is compared of a response: status or panic, content type, length and SHA-256 of the body.
+type respSum struct {
+	Status int
+	Panic  string
+	CType  string
+	Len    int
+	Sum    [32]byte
+}
+
+func sumOf(r lib.Resp) respSum {
+	return respSum{Status: r.Status, Panic: r.Panic, CType: r.Header.Get("Content-Type"), Len: len(r.Body), Sum: sha256.Sum256(r.Body)}
+}
+
+func (r respSum) key() string {
+	if r.Panic != "" {
+		return "panic:" + r.Panic
+	}
+	return fmt.Sprintf("%d", r.Status)
 }
 
 func respKey(r lib.Resp) string {
@@ -248,6 +269,7 @@ func respKey(r lib.Resp) string {
 
 // compare issues the request list against an instance and compares with the scanning server.
 func (e *bundledEnv) compare(ls *lib.Livesim, in bundledInput, keyPrefix string, urls []string) {
+	defer memdbg("after instance " + in.Instance)
 	as := app.VerifC15Assets(ls.Srv)
 	dasset := ""
 	if in.Damage != nil {
@@ -262,14 +284,14 @@ func (e *bundledEnv) compare(ls *lib.Livesim, in bundledInput, keyPrefix string,
 	for _, u := range urls {
 		want, ok := e.scanRes[u]
 		if !ok {
-			want = e.scan.GetRaw(u)
+			want = sumOf(e.scan.GetRaw(u))
 		}
-		got := ls.GetRaw(u)
+		got := sumOf(ls.GetRaw(u))
 		e.n++
 		if want.Status == 200 {
 			e.nNontrivial++ // a distinct (instance, URL) pair whose scan response carries content
 		}
-		if respKey(want) == respKey(got) && string(want.Body) == string(got.Body) && want.Header.Get("Content-Type") == got.Header.Get("Content-Type") {
+		if want == got {
 			continue
 		}
 		sym := "body-differs"
@@ -289,7 +311,7 @@ func (e *bundledEnv) compare(ls *lib.Livesim, in bundledInput, keyPrefix string,
 		reported[key] = true
 		i2 := in
 		i2.URL = u
-		e.c.Fail("B:"+in.Instance+":"+u, key, fmt.Sprintf("%s: scanning server %s (%d bytes), this server %s (%d bytes)", u, respKey(want), len(want.Body), respKey(got), len(got.Body)), i2)
+		e.c.Fail("B:"+in.Instance+":"+u, key, fmt.Sprintf("%s: scanning server %s (%d bytes), this server %s (%d bytes)", u, want.key(), want.Len, got.key(), got.Len), i2)
 	}
 }
 
@@ -316,11 +338,11 @@ func setupBundled(c *lib.Ctx, scratch string) (*bundledEnv, error) {
 	if err != nil {
 		return nil, fmt.Errorf("scan server: %w", err)
 	}
-	e := &bundledEnv{c: c, vod: vod, scan: scan, scanAs: app.VerifC15Assets(scan.Srv), scanRes: map[string]lib.Resp{}}
+	e := &bundledEnv{c: c, vod: vod, scan: scan, scanAs: app.VerifC15Assets(scan.Srv), scanRes: map[string]respSum{}}
 	e.urls = requestList(e.scanAs, c.Thorough())
 	e.urls = append(e.urls, "/livesim2/no/such/asset/Manifest.mpd?nowMS=100000")
 	for _, u := range e.urls {
-		e.scanRes[u] = scan.GetRaw(u)
+		e.scanRes[u] = sumOf(scan.GetRaw(u))
 	}
 	return e, nil
 }
@@ -720,7 +742,7 @@ func (e *bundledEnv) runHistory(scratch string) {
 		}
 		c.Count("B:instance:" + name)
 		scanAs := app.VerifC15Assets(scan.Srv)
-		sub := &bundledEnv{c: c, vod: hvod, scan: scan, scanAs: scanAs, scanRes: map[string]lib.Resp{}}
+		sub := &bundledEnv{c: c, vod: hvod, scan: scan, scanAs: scanAs, scanRes: map[string]respSum{}}
 		sub.compare(ro, in, "history", requestList(scanAs, false))
 		e.n += sub.n
 	}
